@@ -1,7 +1,7 @@
 (* Extraction of the regex matcher, the event-filter model (C15), the listing model (C14) and the
    transfer model (C18).  ExtrOcamlBasic only.  Protocol: harness/props/listing_codec.py. *)
 From Coq Require Import ZArith List Bool.
-From DRF Require Import Base.Regex Gen.Grammar Model.PathSpec Model.Events Model.EventsUniverse Model.Listing.
+From DRF Require Import Base.Regex Gen.Grammar Model.PathSpec Model.Events Model.EventsUniverse Model.Listing Model.Transfer.
 Require Extraction.
 Require Import ExtrOcamlBasic.
 Import ListNotations.
@@ -131,6 +131,81 @@ Definition run_listing (args : list Z) : list Z :=
   | _ => [-997]
   end.
 
+(* content trees: 0 c = file with content c | 2 = vanished | 1 n (name node)^n *)
+Fixpoint parse_cnode (fuel : nat) (l : list Z) : option (cnode * list Z) :=
+  match fuel with
+  | O => None
+  | S f =>
+    match l with
+    | 0 :: c :: r => Some (CFile c, r)
+    | 2 :: r => Some (CGone, r)
+    | 1 :: n :: r =>
+      match parse_centries f (Z.to_nat n) r with
+      | Some (es, r') => Some (CDir es, r')
+      | None => None
+      end
+    | _ => None
+    end
+  end
+with parse_centries (fuel : nat) (n : nat) (l : list Z) : option (list (word * cnode) * list Z) :=
+  match n with
+  | O => Some ([], l)
+  | S n' =>
+    match fuel with
+    | O => None
+    | S f =>
+      let '(w, r) := take_word l in
+      match parse_cnode f r with
+      | Some (nd, r') =>
+        match parse_centries f n' r' with
+        | Some (es, r'') => Some ((w, nd) :: es, r'')
+        | None => None
+        end
+      | None => None
+      end
+    end
+  end.
+
+Fixpoint parse_store (n : nat) (l : list Z) : store :=
+  match n with
+  | O => []
+  | S n' => let '(w, r) := take_word l in
+            match r with c :: r' => (w, c) :: parse_store n' r' | [] => [] end
+  end.
+
+Definition enc_store (s : store) : list Z :=
+  zlen (map (fun _ => 0) s) :: flat_map (fun pc : word * Z => enc_word (fst pc) ++ [snd pc]) s.
+
+Definition terr_code (e : option terr) : Z :=
+  match e with
+  | None => 0 | Some FileExists => 1 | Some NoSuchFile => 2
+  | Some (ListingError x) => 10 + err_code (Some x)
+  end.
+
+(* op variant(4) flags(4) start(2) end(2) recursive reverse src-tree ndst dst-store *)
+Definition run_transfer (args : list Z) : list Z :=
+  match args with
+  | opc :: v1 :: v2 :: v3 :: v4 :: a :: b :: c :: d :: rest =>
+    let o := if opc =? 0 then Cp else if opc =? 1 then Mv else if opc =? 2 then LnHard else LnSym in
+    let v := mkVariant (zb v1) (zb v2) (zb v3) (zb v4) in
+    let fl := mkFlags (zb a) (zb b) (zob c) (zob d) in
+    let '(st, rest) := take_opt rest in
+    let '(en, rest) := take_opt rest in
+    match rest with
+    | rc :: rv :: rest =>
+      let lo := mkOpts fl st en (zb rc) (zb rv) in
+      match parse_cnode (List.length rest) rest with
+      | Some (src, n :: rest') =>
+        let dst := parse_store (Z.to_nat n) rest' in
+        let '((src', dst'), e) := drf_transfer o v lo src dst in
+        terr_code e :: enc_store src' ++ enc_store dst'
+      | _ => [-995]
+      end
+    | _ => [-997]
+    end
+  | _ => [-997]
+  end.
+
 Definition run (f : Z) (args : list Z) : list Z :=
   match f, args with
   | 1, idx :: ci :: s =>
@@ -189,6 +264,7 @@ Definition run (f : Z) (args : list Z) : list Z :=
         match dests with q :: _ => row (mkEvent Moved true src q) (classify rs q) | [] => [] end
       end
   | 20, _ => run_listing args
+  | 30, _ => run_transfer args
   | _, _ => [-999]
   end.
 
